@@ -19,6 +19,7 @@ PKG = "aioesphomeapi"
 API_PROTO = f"{PKG}/api.proto"
 API_OPTIONS_PROTO = f"{PKG}/api_options.proto"
 GENERATED = ("api_pb2.py", "api_options_pb2.py")     # never analysed as program text
+_PARSE_CACHE: dict[tuple[str, str], ast.Module] = {}    # (path, full text) -> tree
 
 
 class Sources:
@@ -39,8 +40,22 @@ class Sources:
             return fh.read()
 
     def tree(self, rel: str) -> ast.Module:
+        """AST of the file's *current* text.
+
+        The text is read afresh by every ``Sources`` object; only the parse is
+        shared between objects, keyed by the full text, so an edited file can
+        never be answered from the cache.  Trees are treated as read-only.
+        """
         if rel not in self._trees:
-            self._trees[rel] = ast.parse(self.text(rel), filename=rel)
+            text = self.text(rel)
+            key = (rel, text)
+            tree = _PARSE_CACHE.get(key)
+            if tree is None:
+                tree = ast.parse(text, filename=rel)
+                if len(_PARSE_CACHE) >= 256:
+                    _PARSE_CACHE.clear()
+                _PARSE_CACHE[key] = tree
+            self._trees[rel] = tree
         return self._trees[rel]
 
     def package_modules(self) -> list[str]:
